@@ -813,7 +813,7 @@ def write_pam(matrix, matrix_size, out, scale=1, border=None, dark='#000', light
         tuple_type = 'RGB'
     is_rgb = tuple_type.startswith('RGB')
     if is_rgb:
-        maxval = max(chain(stroke_color, bg_color))
+        maxval = 255
         depth = 3 if not transparency else 4
         fmt = f'>{depth}B'.encode('ascii')
         colours = (pack(fmt, *bg_color), pack(fmt, *stroke_color))
